@@ -52,12 +52,16 @@ type Config struct {
 	// scheduler seam active; GoMode: "fifo" (spawn order), "lifo", "random", "mix".
 	// EnvMode: "" / "pinned" (real environment) or "vary".
 	EnvMode string `json:"env_mode,omitempty"`
-	Bubble bool   `json:"bubble,omitempty"`
-	GoMode string `json:"go_mode,omitempty"`
+	Bubble  bool   `json:"bubble,omitempty"`
+	GoMode  string `json:"go_mode,omitempty"`
+	// PreemptEvery > 0 (bubble worlds only): goroutines also park at about
+	// every PreemptEvery-th preemption point (function entries, statements
+	// touching package-level variables) inserted by the rewriter.
+	PreemptEvery int `json:"preempt_every,omitempty"`
 	// Replay, when non-nil, replaces the PRNG: decision i is Replay[i].Chosen
 	// if kinds agree, else 0.
-	Replay []Choice `json:"replay,omitempty"`
-	UseReplay bool  `json:"use_replay,omitempty"`
+	Replay    []Choice `json:"replay,omitempty"`
+	UseReplay bool     `json:"use_replay,omitempty"`
 	// Sandbox confines write-class file operations (CLI worlds).
 	Sandbox string `json:"sandbox,omitempty"`
 	// Faults for the informational I/O-error probe: fail the Nth write-class
@@ -71,8 +75,8 @@ type Config struct {
 // SiteStat is the reach table entry of one seamed map-iteration site.
 type SiteStat struct {
 	Execs       int `json:"execs"`
-	Execs2      int `json:"execs_ge2"`     // executions that saw >= 2 keys
-	NonIdentity int `json:"non_identity"`  // executions where a non-identity permutation was applied to >= 2 keys
+	Execs2      int `json:"execs_ge2"`    // executions that saw >= 2 keys
+	NonIdentity int `json:"non_identity"` // executions where a non-identity permutation was applied to >= 2 keys
 	MaxKeys     int `json:"max_keys"`
 }
 
@@ -83,7 +87,7 @@ type Op struct {
 	Path2   string `json:"path2,omitempty"`
 	Real    string `json:"real,omitempty"` // Path with symlinks resolved on its deepest existing ancestor
 	Real2   string `json:"real2,omitempty"`
-	Write   bool   `json:"write"`             // write-class operation
+	Write   bool   `json:"write"` // write-class operation
 	Flags   int    `json:"flags,omitempty"`
 	Escaped bool   `json:"escaped,omitempty"` // write-class op outside the sandbox (refused)
 	Fault   string `json:"fault,omitempty"`   // injected error
@@ -92,15 +96,15 @@ type Op struct {
 
 // Record is everything a world leaves behind besides its outputs.
 type Record struct {
-	Choices   []Choice            `json:"choices"`
-	Sites     map[string]SiteStat `json:"sites"`
-	Ops       []Op                `json:"ops"`
-	ClockCalls int                `json:"clock_calls"`
-	ClockMin  int64               `json:"clock_min"`
-	ClockMax  int64               `json:"clock_max"`
-	Fired     map[string]int      `json:"fired"` // per fault kind: how often it actually perturbed something
-	Unseamed  []string            `json:"unseamed,omitempty"`
-	ExitCode  int                 `json:"exit_code"`
+	Choices    []Choice            `json:"choices"`
+	Sites      map[string]SiteStat `json:"sites"`
+	Ops        []Op                `json:"ops"`
+	ClockCalls int                 `json:"clock_calls"`
+	ClockMin   int64               `json:"clock_min"`
+	ClockMax   int64               `json:"clock_max"`
+	Fired      map[string]int      `json:"fired"` // per fault kind: how often it actually perturbed something
+	Unseamed   []string            `json:"unseamed,omitempty"`
+	ExitCode   int                 `json:"exit_code"`
 }
 
 type sched struct {
